@@ -430,6 +430,7 @@ func runC10(h *H) {
 		h.DoRisky("json.own", strconv.Itoa(i), "marshalbig")
 	}
 	h.DoRisky("json.own", "0", "longkeys")
+	runC10acc(h) // retained results of every API that hands out memory: c10acc.go
 }
 
 // reentrantWriter calls back into the package while it is being written to, then checks that what it was given is unchanged.
